@@ -38,6 +38,9 @@ type Opts struct {
 	CBlocks []string `json:"c_blocks"`
 	// Remove adds the C08 alphabet: removal of wallet B (API call) and its background run.
 	Remove bool `json:"remove"`
+	// NewAddr adds NewAddress calls for wallet A (at most two per history; used as a fault
+	// target by C18 and a crash target by C06).
+	NewAddr bool `json:"new_addr"`
 	// Games adds the C10 oracle (staking/binding histories, withdrawal sequences).
 	Games bool `json:"games"`
 }
@@ -96,6 +99,9 @@ func (m *Model) Alphabet() []string {
 	}
 	if m.O.Remove {
 		a = append(a, "k.rm", "k.run", "k.im")
+	}
+	if m.O.NewAddr {
+		a = append(a, "n.a")
 	}
 	if m.O.Import || m.O.Remove {
 		a = append(a, "z")
@@ -167,6 +173,10 @@ func (m *Model) Enabled(w *world.World) []string {
 				if st == "absent" && !w.BReimported {
 					s = append(s, ev)
 				}
+			}
+		case 'n':
+			if w.NewAddrCalls < 2 {
+				s = append(s, ev)
 			}
 		case 'z':
 			if q == 0 && m.restarts(w) < 1 {
